@@ -503,6 +503,42 @@ func run(c *engine.Ctx) {
 		})
 	}
 
+	// (c5) the same for multisets of other small components (repeated and non-isomorphic ones mixed) and their complements
+	// (joins): seeded multisets of 3..6 components from a pool of small vertex-transitive and nearly symmetric graphs
+	pool := []struct {
+		name string
+		g    *rg.G
+	}{{"K1", rg.New(1)}, {"K2", gen.Complete(2)}, {"P3", gen.PathG(3)}, {"K3", gen.Complete(3)}, {"C4", gen.Cycle(4)}, {"K4", gen.Complete(4)}, {"P4", gen.PathG(4)},
+		{"C5", gen.Cycle(5)}, {"K1,3", gen.CompleteMultipartite(1, 3)}, {"K2,3", gen.CompleteMultipartite(2, 3)}, {"K3,3", gen.CompleteMultipartite(3, 3)}, {"C6", gen.Cycle(6)},
+		{"prism", gen.Circulant(6, 1, 3)}, {"Q3", gen.Hypercube(3)}, {"C7", gen.Cycle(7)}, {"petersen", gen.Kneser(5, 2)}}
+	NMS := c.Pick(64, 400)
+	KM := c.Pick(300, 600)
+	for mi := 0; mi < NMS; mi++ {
+		mi := mi
+		c.Unit(fmt.Sprintf("component-multisets/%d", mi), func() {
+			r := c.Rand("c01-multisets", mi)
+			// 2-3 distinct component types, each repeated 1..3 times, at most 6 components and 40 vertices
+			types := r.Perm(len(pool))[:2+r.Intn(2)]
+			g := rg.New(0)
+			name := ""
+			comps := 0
+			for _, t := range types {
+				for rep := 1 + r.Intn(3); rep > 0 && comps < 6 && g.N+pool[t].g.N <= 40; rep-- {
+					g = rg.Union(g, pool[t].g)
+					name += pool[t].name + "+"
+					comps++
+				}
+			}
+			name = strings.TrimSuffix(name, "+")
+			if mi%3 == 2 {
+				g = g.Complement()
+				name = "co(" + name + ")"
+			}
+			checkClass(c, "component-multisets", name, g, KM, func(i int) *engine.Rng { return c.Rand("c01-multisets-perm", mi*2048+i) }, nil)
+			c.Obs("component_multisets_checked", 1)
+		})
+	}
+
 	// (d) seeded graphs: random small, regular, trees, unions, irregular graphs with big cells (n >= 21)
 	NS := c.Pick(1500, 15000)
 	per := 25
